@@ -13,6 +13,7 @@ import (
 	"path/filepath"
 	"sort"
 	"strconv"
+	"strings"
 	"sync"
 	"testing"
 )
@@ -154,7 +155,13 @@ func Main(m *testing.M, prop string) {
 }
 
 func loadKnown() {
-	b, err := os.ReadFile(filepath.Join(VerifDir(), "KNOWN_FINDINGS.json"))
+	loadKnownFile(filepath.Join(VerifDir(), "KNOWN_FINDINGS.json"))
+	// development overlay of one property (merged into KNOWN_FINDINGS.json by tools/mkmanifest.py)
+	loadKnownFile(filepath.Join(VerifDir(), "props", strings.ToLower(rec.prop), "findings.json"))
+}
+
+func loadKnownFile(path string) {
+	b, err := os.ReadFile(path)
 	if err != nil {
 		return
 	}
